@@ -70,7 +70,7 @@ EmitStmts(ss, i, inBlock) ==
   ELSE (IF i > 1 THEN <<Nl>> ELSE <<>>) \o (IF inBlock THEN <<Ind>> ELSE <<>>) \o Emit(ss[i]) \o EmitStmts(ss, i + 1, inBlock)
 
 Emit(n) ==
-  CASE n.k = "prog" -> EmitStmts(n.c, 1, FALSE)
+  CASE n.k = "prog" -> EmitStmts(n.c, 1, FALSE) \o <<[op |-> "forget"]>>
     [] n.k = "let" ->
          <<S("let ")>> \o Emit(n.c[1]) \o (IF IsNilNode(n.c[2]) THEN <<>> ELSE <<Sp, Ru("="), Sp>> \o Emit(n.c[2])) \o <<SemiO>>
     [] n.k = "lete" ->
@@ -80,7 +80,7 @@ Emit(n) ==
     [] n.k = "fdecl" ->
          <<S("function ")>> \o Emit(n.c[1]) \o <<Ru("(")>> \o EmitParams(n.c[2].c, 1) \o <<Ru(")"), Sp>> \o Emit(n.c[3])
     [] n.k = "blk" ->
-         <<Ru("{"), Nl, IncO>> \o EmitStmts(n.c, 1, TRUE) \o <<DecO, Nl, Ind, Ru("}")>>
+         <<Ru("{"), Nl, IncO>> \o EmitStmts(n.c, 1, TRUE) \o <<DecO, Nl, [op |-> "forget"], Ind, Ru("}")>>
     [] n.k = "if" ->
          <<S("if"), Sp, Ru("(")>> \o Emit(n.c[1]) \o <<Ru(")"), Sp>> \o Emit(n.c[2])
          \o (IF IsNilNode(n.c[3]) THEN <<>> ELSE <<S(" else ")>> \o Emit(n.c[3]))
